@@ -85,6 +85,8 @@ class World:
     def ncp_submit(self):
         self.npay += 1
         payload = bytes([0xB0, self.npay & 0xFF, self.npay >> 8, self.rng.getrandbits(8)])
+        if self.ncp.sub and self.rng.random() < 0.3:
+            payload = self.ncp.sub[-1]   # the NCP has the same thing to say twice in a row (two identical callbacks): two frames
         self.ncp.submit(payload)
         self._drain_ncp()
         self.labels.append("ns")
@@ -186,13 +188,18 @@ def oracle(w):
             pos = i
         return None
 
-    bad = subseq(w.ncp.up, hs, "the NCP's upper layer") or subseq(w.host_up, ns, "the host's upper layer")
+    bad = subseq(w.ncp.up, hs, "the NCP's upper layer")
     if bad:
         return bad
-    for i in range(w.ncp.base):  # the NCP's sends that completed (were acknowledged by the host)
-        if w.host_up.count(ns[i]) != 1:
-            return (f"the host acknowledged NCP frame {i} ({hx(ns[i])}) but handed it to its upper layer "
-                    f"{w.host_up.count(ns[i])} times")
+    # NCP -> host: exactly once and in order means the host's upper layer has seen a prefix of what the NCP submitted
+    # (payloads may repeat: they are told apart by position)
+    if list(w.host_up) != list(ns[: len(w.host_up)]):
+        k = next((i for i, (a, b) in enumerate(zip(w.host_up, ns)) if a != b), min(len(w.host_up), len(ns)))
+        return (f"the host's upper layer received {[hx(x) for x in w.host_up[max(0, k - 2):k + 2]]} at position {k}, the NCP submitted "
+                f"{[hx(x) for x in ns[max(0, k - 2):k + 2]]}: not each frame once in order")
+    if len(w.host_up) < w.ncp.base:  # the NCP's sends that completed (were acknowledged by the host)
+        i = len(w.host_up)
+        return (f"the host acknowledged NCP frame {i} ({hx(ns[i])}) but handed it to its upper layer 0 times")
     for p, t in w.host_sub:
         r = w.results.get(p)
         if r is not None and r.startswith("!"):
